@@ -27,6 +27,9 @@ class Infeasible(EngineSignal):
 # --------------------------------------------------------------------------------------
 # symbolic values
 # --------------------------------------------------------------------------------------
+_NATIVE_API = frozenset(n for t in (str, int, list, set, dict, tuple, bytes) for n in dir(t) if not n.startswith("_"))
+
+
 class Sym(object):
     """Base class.  Native Python code must never inspect a symbolic value."""
     __slots__ = ()
@@ -36,6 +39,13 @@ class Sym(object):
 
     __bool__ = __len__ = __iter__ = __int__ = __index__ = _native
     __lt__ = __le__ = __gt__ = __ge__ = __contains__ = _native
+
+    def __getattr__(self, name):
+        # natively executed code asking a symbolic value for a method of the python type it stands for (s.startswith,
+        # n.bit_length, xs.append ...): the answer is unknown to it - undecided, never an AttributeError of the code
+        if name in _NATIVE_API:
+            raise Undecided("native attribute access .%s on the symbolic value %r" % (name, self))
+        raise AttributeError(name)
 
     # While the interpreter runs a NATIVE operation on behalf of the interpreted code (STRICT > 0), python's own
     # machinery must not compare or hash a symbolic value: identity is not equality there (a dict lookup with a key
